@@ -149,7 +149,11 @@ def family_run(ctx, monitors, n_cases, profiles=PROFILES, procs=14, corpus=None,
                 results.append(_run_spec(json.load(open(os.path.join(corpus, f)))["spec"], monitors, ("corpus", f, "")))
     pjobs = [(ctx.seed + seed_offset, i, monitors, scratch) for i in range(n_parsed)]
     # lazily parsed runs: the selections rotate with the seed
-    pjobs += [(ctx.seed + seed_offset, 5 * (ctx.seed + seed_offset) + 3 * i, monitors, scratch, True) for i in range(n_lazyparsed)]
+    # (the mixed-set selection is expanded lazily in every run: one node must serve both of its roles)
+    import travparsed
+    lazy_idx = ([travparsed.MIXED_SETS] if n_lazyparsed else []) + \
+               [5 * (ctx.seed + seed_offset) + 3 * i for i in range(max(0, n_lazyparsed - 1))]
+    pjobs += [(ctx.seed + seed_offset, i, monitors, scratch, True) for i in lazy_idx]
     with multiprocessing.get_context("fork").Pool(procs) as pool:
         pending = pool.imap_unordered(_one_parsed, pjobs, chunksize=1)     # the slow ones first
         for r in pool.imap_unordered(_one, jobs, chunksize=2):
@@ -195,6 +199,8 @@ def judge(ctx, results, monitors, label="trav"):
         ctx.count("executions", r["n_exec"])
         if r["disagree"] and substring_ids(spec):
             ctx.count("model-comparison-skipped:worker-id-substring-of-another")
+        elif r["disagree"] and spec.get("monitors_only") and spec.get("lazyparsed"):
+            ctx.count("model-comparison-skipped:" + spec["monitors_only"])
         elif r["disagree"]:
             ctx.disagree(f"trace#{r['ident']}:block{r['disagree']['block']}", {"spec": spec, "ident": list(r["ident"])},
                          r["disagree"]["model"], r["disagree"]["impl"])
